@@ -745,6 +745,54 @@ Definition find_by_prop (s : state) (key : Z) (v : value) : list Z :=
   end.
 (** the same lookup against the pre-repair machine is the same function of the state *)
 
+(** find_nodes_by_properties (conjunction of equalities): start from the smallest result of an
+    indexed condition (the first of the smallest ones), or from find_nodes_by_property of the first
+    condition when no condition is indexed; an indexed condition without a match ends the lookup;
+    the remaining conditions filter the candidates by [Value::eq] on the stored value *)
+Definition cond_holds (s : state) (c : Z * value) (n : Z) : bool :=
+  match ps_get (nprops s) n (fst c) with Some x => value_ieee_eqb x (snd c) | None => false end.
+Fixpoint best_start (s : state) (conds : list (Z * value)) (i : Z) (best : option (Z * list Z))
+  : option (option (Z * list Z)) :=
+  match conds with
+  | [] => Some best
+  | c :: r =>
+      match zget (pidx s) (fst c) with
+      | Some ix =>
+          let m := match vget ix (snd c) with Some ns => ns | None => [] end in
+          match m with
+          | [] => None
+          | _ => let better := match best with
+                               | None => true
+                               | Some (_, b) => Z.of_nat (length m) <? Z.of_nat (length b)
+                               end in
+                 best_start s r (i + 1) (if better then Some (i, m) else best)
+          end
+      | None => best_start s r (i + 1) best
+      end
+  end.
+Fixpoint filter_conds (s : state) (conds : list (Z * value)) (i start : Z) (cands : list Z) : list Z :=
+  match conds with
+  | [] => cands
+  | c :: r => filter_conds s r (i + 1) start (if i =? start then cands else filter (cond_holds s c) cands)
+  end.
+Definition find_by_props (s : state) (conds : list (Z * value)) : list Z :=
+  match conds with
+  | [] => node_ids s
+  | c0 :: _ =>
+      match best_start s conds 0 None with
+      | None => []
+      | Some b =>
+          let '(start, cands) := match b with
+                                 | Some x => x
+                                 | None => (0, find_by_prop s (fst c0) (snd c0))
+                                 end in
+          filter_conds s conds 0 start cands
+      end
+  end.
+(** the scan the conjunction means *)
+Definition scan_by_props (s : state) (conds : list (Z * value)) : list Z :=
+  filter (fun n => forallb (fun c => cond_holds s c n) conds) (node_ids s).
+
 Definition scan_in_range (s : state) (key : Z) (lo hi : option value) (li hi_i : bool) : list Z :=
   filter (fun n => match ps_get (nprops s) n key with Some x => value_in_range x lo hi li hi_i | None => false end) (node_ids s).
 Definition find_in_range (s : state) (key : Z) (lo hi : option value) (li hi_i : bool) : list Z :=
